@@ -447,6 +447,14 @@ def sample_mismatch_experiment(block: Block, sample: dict) -> dict:
         mismatches in the categories factors, constraints and crossings
     """
     res = {}
+    # Factors introduced by desugaring weighted levels are not part of returned
+    # trials; their levels are determined by the factor they replace
+    for f in block.design:
+        if isinstance(f.name, HiddenName) and f.name not in sample and isinstance(f, DerivedFactor):
+            source = f.first_level.window.factors[0]
+            if source.name in sample:
+                sample = {**sample, f.name: [next((l.name for l in f.levels if l.window.predicate(v)), v)
+                                             for v in sample[source.name]]}
     for key in sample:
         if len(sample[key]) != block.trials_per_sample():
             res['trial_count'] = [key, len(sample[key]), block.trials_per_sample()]
